@@ -80,6 +80,8 @@ RestrictedRules        == {"restricted", "knock_restricted"}
 RestrictedSupported(v) == v \in {"8", "9", "10", "11", "12"}
 FormatV1(v)            == v \in {"1", "2"}          \* event ID carried inside the event
 PrivCreators(v)        == v = "12"
+DomainlessRoom(v)      == v = "12"                  \* room ID = create event ID
+ViaSigned(v)           == v \in {"9", "10", "11", "12"}   \* join_authorised_via_users_server survives redaction
 
 (***************************************************************************)
 (* Authorisation rules for U's own join / leave (Matrix specification,     *)
@@ -370,12 +372,12 @@ SetEv(e, f, v) ==
       [] f = "e_room"  -> [e EXCEPT !.room = v]  [] f = "e_via"   -> [e EXCEPT !.via = v]
       [] f = "e_sig"   -> [e EXCEPT !.sig = v]
 
-\* a forged event field: either re-signed by its (malicious) sender's server, or the signature is left behind.
-\* A re-signing forger of the sender signs as the server of the new sender.
+\* a forged event field: either the event is re-signed by the server of its (new) sender - a malicious requester,
+\* who then also names the new event ID in the request - or the signature is left behind.
 ForgeEv(m, f, v, resign) ==
     LET e1 == SetEv(m.ev, f, v)
         e2 == IF f = "e_sig" THEN e1
-              ELSE IF resign THEN [e1 EXCEPT !.sig = IF m.ev.sig = "valid" THEN "valid" ELSE @]
+              ELSE IF resign THEN [e1 EXCEPT !.sig = "valid"]
               ELSE [e1 EXCEPT !.sig = "tampered"]
     IN  IF m.k = "sjreq"
         \* the request names the event by ID: an ID computed from the content no longer matches a tampered event
@@ -412,14 +414,17 @@ CurrentValue(m, f) ==
 
 \* which forgeries make sense on the message as it is now
 Forgeable(m, f) ==
-    CASE f \in {"t_type", "t_mship", "t_ssrv", "t_room", "t_via", "t_auth", "ver"} -> m.res = "ok"
+    CASE f \in {"t_type", "t_mship", "t_ssrv", "t_room", "t_via", "ver"} -> m.res = "ok"
+      [] f = "t_auth" -> m.res = "ok" /\ ~DomainlessRoom(sc.ver)      \* there the create event is implied by the room ID
       [] f = "res" -> m.res = "refused"
-      [] f \in {"create", "st", "jrsig", "ban", "jret"} -> m.res = "ok"
+      [] f \in {"create", "st", "ban", "jret"} -> m.res = "ok"
+      [] f = "jrsig" -> m.res = "ok" /\ sc.jr # "none"
+      [] f = "e_via" -> ViaSigned(sc.ver)     \* elsewhere the key is not covered by the signature (redaction drops it)
       [] OTHER -> TRUE
 
 ResignChoices(f) == IF f \in {"e_type", "e_mship", "e_skey", "e_ssrv", "e_room", "e_via"} THEN BOOLEAN ELSE {FALSE}
 
-Forge(f, v, resign) ==
+ForgeGuard(f, v, resign) ==
     /\ net.k \in DOMAIN ForgeTable
     /\ nforge < MaxForge
     /\ f \in DOMAIN ForgeTable[net.k]
@@ -429,6 +434,9 @@ Forge(f, v, resign) ==
     /\ CurrentValue(net, f) # v
     \* one forgery per field of a message
     /\ \A i \in DOMAIN hist : hist[i].a = "Forge" => ~(hist[i].at = net.k /\ hist[i].f = f)
+
+Forge(f, v, resign) ==
+    /\ ForgeGuard(f, v, resign) = TRUE
     /\ net' = ApplyForge(net, f, v, resign)
     /\ nforge' = nforge + 1
     /\ Log([a |-> "Forge", at |-> net.k, f |-> f, v |-> v, resign |-> resign])
